@@ -304,23 +304,29 @@ Theorem c08_scopes_hygiene_rust_scoping : forall m outer e,
   eval same_nm (ren_env m outer) (ren rust_walk m [] e) = eval same_id outer e.
 Proof. exact ren_sound. Qed.
 
-(* the walk of the code as it is (real_walk: the guard of a match arm is walked outside the arm's scope): PARTIAL — the extra
-   hypothesis guards_ok (no guard mentions, under the spelling of its arm's binder, an identifier that the renaming maps)
-   excludes the finding match_guard_walked_outside_arm_scope, refuted below without it.  Also missing: the link to the rule
-   level (MacroScopesEval.run_rule: one rule of clauses / let / if let / for / conditions / negations over these expressions,
-   several invocations = several passes) is evaluated by the tie on every program, not proved. *)
+(* the walk of the code as it is (real_walk; since fix e64116b the guard of a match arm is walked inside the arm's scope, so
+   the walk IS Rust's scoping): NO CAPTURE under hyp alone.  PARTIAL only in this sense: the link to the rule level
+   (MacroScopesEval.run_rule: one rule of clauses / let / if let / for / conditions / negations over these expressions, several
+   invocations = several passes) is evaluated by the tie on every program, not proved. *)
 Theorem c08_scopes_hygiene_real_walk_partial : forall m outer e,
-  hyp m (map fst outer) [] e = true -> guards_ok m e = true ->
+  hyp m (map fst outer) [] e = true ->
   eval same_nm (ren_env m outer) (ren real_walk m [] e) = eval same_id outer e.
 Proof. exact ren_sound_real. Qed.
-Theorem c08_scopes_real_walk_agrees_with_rust_scoping : forall m e bound,
-  guards_ok m e = true -> ren real_walk m bound e = ren rust_walk m bound e.
-Proof. exact real_walk_agrees. Qed.
-Theorem c08_scopes_hygiene_real_walk_without_guards_ok_refuted : exists m outer e,
+Theorem c08_scopes_real_walk_is_rust_scoping : forall m e bound, ren real_walk m bound e = ren rust_walk m bound e.
+Proof. exact real_walk_is_rust_scoping. Qed.
+(* HISTORY (finding match_guard_walked_outside_arm_scope, repaired by e64116b): walk_before_fix visited the guard outside the
+   arm's scope; it was free of capture only under the extra hypothesis guards_ok (no guard mentions, under the spelling of its
+   arm's binder, an identifier that the renaming maps) and is refuted without it — on a witness that the code as it is gets
+   right: match 0 { x if x > 0 => 5, _ => 6 } in a macro body whose local is x. *)
+Theorem c08_scopes_hygiene_walk_before_fix_needed_guards_ok : forall m outer e,
+  hyp m (map fst outer) [] e = true -> guards_ok m e = true ->
+  eval same_nm (ren_env m outer) (ren walk_before_fix m [] e) = eval same_id outer e.
+Proof. exact ren_sound_before_fix. Qed.
+Theorem c08_scopes_walk_before_fix_guard_outside_arm_refuted : exists m outer e,
   hyp m (map fst outer) [] e = true
-  /\ eval same_nm (ren_env m outer) (ren rust_walk m [] e) = eval same_id outer e
-  /\ eval same_nm (ren_env m outer) (ren real_walk m [] e) <> eval same_id outer e.
-Proof. exact real_walk_guard_refuted. Qed.
+  /\ eval same_nm (ren_env m outer) (ren real_walk m [] e) = eval same_id outer e
+  /\ eval same_nm (ren_env m outer) (ren walk_before_fix m [] e) <> eval same_id outer e.
+Proof. exact before_fix_guard_refuted. Qed.
 
 (* several invocations (a nested one, expanded and renamed first, then the enclosing one; two invocations in one rule): the
    passes applied one after the other are the single pass of the theorem with both mappings, provided the second pass does not
@@ -333,9 +339,9 @@ Proof. exact ren_sound_two_passes. Qed.
 
 (* REFUTED variant (not the code: seed C08 round 5): a block's `let v = <init>` that binds v already inside <init> — the macro
    local read by the initialiser of a shadowing let is not renamed and is captured by the call site's variable of that spelling;
-   the hypotheses of the theorem above hold for the witness { let x = incs(x); x } *)
+   the hypothesis of the theorem above holds for the witness { let x = incs(x); x } *)
 Theorem c08_scopes_let_bound_inside_its_initialiser_refuted : exists m outer e,
-  hyp m (map fst outer) [] e = true /\ guards_ok m e = true
+  hyp m (map fst outer) [] e = true
   /\ eval same_nm (ren_env m outer) (ren seed_walk m [] e) <> eval same_id outer e.
 Proof. exact seed_walk_refuted. Qed.
 Example c08_scopes_shadowing_let_example :
@@ -351,8 +357,8 @@ Proof. exact shadow_example. Qed.
 (* outside hyp (finding expression_binder_resolved_by_spelling): the binders of expressions are not renamed, so a `let x`
    written in the macro body captures the call site's x that an argument brings below it — whatever the walk *)
 Theorem c08_scopes_expression_binder_captures_refuted : exists m outer e,
-  guards_ok m e = true /\ hyp m (map fst outer) [] e = false
-  /\ ren real_walk m [] e = e /\ ren rust_walk m [] e = e
+  hyp m (map fst outer) [] e = false
+  /\ ren real_walk m [] e = e /\ ren walk_before_fix m [] e = e
   /\ eval same_nm (ren_env m outer) e <> eval same_id outer e.
 Proof. exact expression_binder_captures_refuted. Qed.
 
@@ -360,7 +366,8 @@ Print Assumptions c08_scopes_let_initialiser_is_outside_the_lets_scope. Print As
 Print Assumptions c08_scopes_match_arm_scopes_over_guard_and_body. Print Assumptions c08_scopes_if_let_scopes_over_the_then_block_only.
 Print Assumptions c08_scopes_for_scopes_over_the_loop_body_only. Print Assumptions c08_scopes_renaming_touches_exactly_the_free_occurrences.
 Print Assumptions c08_scopes_hygiene_rust_scoping. Print Assumptions c08_scopes_hygiene_real_walk_partial.
-Print Assumptions c08_scopes_real_walk_agrees_with_rust_scoping. Print Assumptions c08_scopes_hygiene_real_walk_without_guards_ok_refuted.
+Print Assumptions c08_scopes_real_walk_is_rust_scoping. Print Assumptions c08_scopes_hygiene_walk_before_fix_needed_guards_ok.
+Print Assumptions c08_scopes_walk_before_fix_guard_outside_arm_refuted.
 Print Assumptions c08_scopes_let_bound_inside_its_initialiser_refuted. Print Assumptions c08_scopes_shadowing_let_example.
 Print Assumptions c08_scopes_expression_binder_captures_refuted.
 Print Assumptions c08_scopes_hygiene_two_invocations.
